@@ -99,7 +99,7 @@ def main():
             text, note, tech = CLAIMS[p]
             m["checks"].append({
                 "property_id": p, "quick_cmd": "./run.py %s quick" % p, "thorough_cmd": "./run.py %s thorough" % p,
-                "evidence_file": "evidence/%s.json" % p, "engine": "lean-proof",
+                "evidence_file": "evidence/%s.json" % p, "replay_cmd_template": "./run.py %s quick --replay {path}" % p, "engine": "lean-proof",
                 "level_claimed": {"category": "proof", "text": text, "design_ref": "DESIGN.md §6 " + p},
                 "level_note": TB + note, "technique": tech})
         else:
